@@ -46,6 +46,13 @@ var programs = []prog{
 	{name: "native-poll-callback-loop", body: "host.Poll(func() bool {\n for {\n }\n return true\n})"},
 	{name: "native-poll-in-goroutine", body: "done := make(chan bool)\nch := make(chan int)\ngo func() {\n host.Poll(func() bool {\n  ch <- 1\n  return true\n })\n done <- true\n}()\nhost.Poll(func() bool {\n return <-done\n})"},
 	{name: "buffered-producer-consumer", body: "c := make(chan int, 2)\ngo func() {\n for i := 0; ; i++ {\n  c <- i\n }\n}()\nfor {\n <-c\n}"},
+	// two goroutines contending for the one value (or the one free slot) of a buffered
+	// channel, with no further partner: whoever loses blocks until the cancellation.
+	// With the intra-instruction points of the reflect overlay (sched/intra_on.go) a
+	// window between two channel primitives of ONE instruction is explored here.
+	{name: "buffered-two-receivers", body: "c := make(chan int, 1)\nc <- 1\ngo func() {\n <-c\n}()\n<-c\nfor {\n}"},
+	{name: "buffered-two-senders", body: "c := make(chan int, 1)\ngo func() {\n c <- 1\n}()\nc <- 2\nfor {\n}"},
+	{name: "buffered-range-and-receive", body: "c := make(chan int, 1)\nc <- 1\ngo func() {\n for range c {\n }\n}()\n<-c\nfor {\n}"},
 	// loops made only of jumps
 	{name: "continue-loop", body: "for {\n continue\n}"},
 	{name: "goto-cycle", body: "A:\n goto B\nB:\n goto A"},
